@@ -34,6 +34,7 @@ PROP_FUNCS = {
     'C13': ['find_token', 'find_token_reverse', 'try_find_line', 'try_find_line_with_date', 'getitem'],
     'C16': ['since_window', 'line_date_is_valid', 'apply_to_line'],
     'C18': ['num_parallel_tasks'],
+    'C15': ['allocations', 'allocate_next', 'add_to_store'],
 }
 ALL_FUNCS = [s['name'] for s in pytolean.FUNCS]
 
@@ -65,8 +66,11 @@ def _recheck(text):
     -> {func: 'proved' | 'proof-broken'} """
     with open(os.path.join(GEN_DIR, 'Bridge.lean')) as f:
         bridge = f.read()
+    with open(os.path.join(GEN_DIR, 'BridgeStore.lean')) as f:
+        bridge += f.read()
     src = ("import SkModel.Gen.PyPrim\nimport SkModel.Runner\nimport SkModel.Since\n"
            "import SkModel.Theorems.C16\nimport SkModel.Proofs.SeekShape\n"
+           "import SkModel.Store\nimport SkModel.Proofs.StoreInv\n"
            + _strip_imports(text) + _strip_imports(bridge)
            + ''.join(f"#print axioms Sk.Gen.bridge_{n}\n" for n in ALL_FUNCS))
     out = _lean(src)
@@ -410,7 +414,8 @@ def check(rep, prop):
         info['status'] = {f: 'proved (bridge theorem of the built library, see theorems)'
                           for f in funcs}
         return
-    h = hashlib.sha256((text + open(os.path.join(GEN_DIR, 'Bridge.lean')).read()).encode()
+    h = hashlib.sha256((text + open(os.path.join(GEN_DIR, 'Bridge.lean')).read()
+                        + open(os.path.join(GEN_DIR, 'BridgeStore.lean')).read()).encode()
                        ).hexdigest()[:16]
     cache = os.path.join(core.LEAN_DIR, '.lake', f'bridge_{h}.json')
     res = None
